@@ -161,9 +161,10 @@ def props_assumptions(prop_file: str) -> List[Tuple[str, str]]:
 
 def coq_eval_file(vpath: str, timeout: int = 900) -> str:
     """Run coqc on a generated cases file (in build/cases) and return its stdout."""
-    rc, out, err = run(["timeout", str(timeout), "coqc", "-Q", os.path.join(COQ, "theories"), "BP",
-                        "-Q", os.path.join(COQ, "gen"), "BPGen", vpath],
-                       cwd=os.path.dirname(vpath), timeout=timeout + 30)
+    # address-space limit: a blow-up in a case file must fail fast, not starve the machine
+    cmd = (f"ulimit -v 12000000; exec timeout {timeout} coqc -Q '{os.path.join(COQ, 'theories')}' BP "
+           f"-Q '{os.path.join(COQ, 'gen')}' BPGen '{vpath}'")
+    rc, out, err = run(["bash", "-c", cmd], cwd=os.path.dirname(vpath), timeout=timeout + 30)
     if rc != 0:
         raise Broken(f"coqc failed on {os.path.basename(vpath)}", (out + err)[-4000:])
     return out
@@ -266,7 +267,7 @@ class Check:
         if bad:
             raise Broken("forbidden construct in the Coq development", "\n".join(bad))
         vo = f"props/{prop_file}o"
-        ok, log = coq_build([vo, "theories/Eqb.vo"] + list(extra_targets))
+        ok, log = coq_build([vo, "theories/Eqb.vo"] + list(extra_targets) + list(getattr(self, "_model_vo", ())))
         if not ok:
             m = re.search(r'File "\./([^"]+)", line (\d+)', log)
             where = f"{m.group(1)}:{m.group(2)}" if m else "?"
@@ -290,6 +291,7 @@ class Check:
         search the implementation for a concrete failing input.  If the translation itself
         failed, the last accepted translation (coq/ref) stands in for the model during that
         search."""
+        self._model_vo = tuple(model_vo)
         try:
             self.prove(prop_file)
             return
